@@ -1,5 +1,5 @@
 (* C09 - find -exec ... ;: one run per file, {} substituted, argv intact, true iff 0. *)
-Require Import PathModel ExecSingle SubstProofs.
+Require Import PathModel Paths PathsProofs PrintfValue PrintfValueProofs ExecSingle SubstProofs.
 From Coq Require Import List Arith Bool.
 Import ListNotations.
 
@@ -11,8 +11,38 @@ Print Assumptions C09_subst.
 (* one argv element per template, whatever the path contains: no word splitting *)
 Theorem C09_argv_shape : forall execdir exe tmpls path,
   length (exec_argv execdir exe tmpls path) = S (length tmpls).
-Proof. intros. unfold exec_argv. cbn [length]. now rewrite map_length. Qed.
+Proof. intros. unfold exec_argv. now rewrite map_length. Qed.
 Print Assumptions C09_argv_shape.
+
+(* the command word is treated like the arguments: every {} in it is replaced too *)
+Theorem C09_command_word : forall execdir exe tmpls path,
+  hd [] (exec_argv execdir exe tmpls path) = subst (exec_path execdir path) exe.
+Proof. intros. unfold exec_argv. cbn [map hd]. apply render_is_subst. Qed.
+Print Assumptions C09_command_word.
+
+(* -execdir: the name handed over is "./" and what %f prints, the directory is what %h prints ("/" for a path directly under the
+   root, no change of directory when there is no directory part) - so directory, "/", name recompose the path as spelled
+   (C16_h_f_recompose), whatever "." or ".." it ends in *)
+Theorem C09_execdir_split : forall path, trim_end_sl path <> [] ->
+  exec_path true path = PathModel.DOT :: PathModel.SL :: pv_f path /\
+  match exec_cwd true path with
+  | None => pv_h path = [PathModel.DOT] /\ ~ In PathModel.SL (trim_end_sl path)
+  | Some d => In PathModel.SL (trim_end_sl path) /\ (d = pv_h path \/ (d = [PathModel.SL] /\ pv_h path = []))
+  end.
+Proof.
+  intros path H. unfold exec_path, exec_cwd, pv_f, pv_h, name_subject.
+  pose proof (PrintfValueProofs.h_f_recompose path H) as R. unfold pv_h, pv_f, name_subject in R.
+  destruct (trim_end_sl path) as [|c t] eqn:E; [congruence|]. split; [reflexivity|].
+  pose proof (PrintfValueProofs.dir_last_seg (c :: t) [] [] None eq_refl) as D. unfold PrintfValueProofs.split_inv in D. cbn [app] in D.
+  destruct (dir_seg (c :: t) [] None) as [d|].
+  - destruct R as [[_ Hin]|[Hdot [_ Hno]]]; [|exfalso].
+    + destruct d; (split; [exact Hin|]); [right; split; reflexivity|left; reflexivity].
+    + (* with a directory part there is a slash *)
+      apply Hno. rewrite D. apply in_or_app. right. now left.
+  - destruct R as [[_ Hin]|[Hdot [_ Hno]]]; [exfalso|split; [reflexivity|exact Hno]].
+    rewrite D in Hin. revert Hin. apply PathsProofs.last_seg_no_sl. intros [].
+Qed.
+Print Assumptions C09_execdir_split.
 
 (* a template without "{}" is passed unchanged *)
 Theorem C09_literal_unchanged : forall tmpl path, subst_free tmpl = true -> render tmpl path = tmpl.
